@@ -21,16 +21,16 @@ import (
 )
 
 type harnessSpec struct {
-	Name        string         `json:"name"`
-	Quick       map[string]int `json:"quick"`
-	Thorough    map[string]int `json:"thorough"`
-	Solver      string         `json:"solver,omitempty"`
-	ExpectPanic bool           `json:"expect_panic,omitempty"`
-	TimeoutMs   int            `json:"timeout_ms,omitempty"`
-	QuickOnly   bool           `json:"quick_only,omitempty"`
-	NoSelfval   bool           `json:"no_selfval,omitempty"`
-	SelfvalN    int            `json:"selfval_n,omitempty"`
-	ThoroughOnly bool          `json:"thorough_only,omitempty"`
+	Name         string         `json:"name"`
+	Quick        map[string]int `json:"quick"`
+	Thorough     map[string]int `json:"thorough"`
+	Solver       string         `json:"solver,omitempty"`
+	ExpectPanic  bool           `json:"expect_panic,omitempty"`
+	TimeoutMs    int            `json:"timeout_ms,omitempty"`
+	QuickOnly    bool           `json:"quick_only,omitempty"`
+	NoSelfval    bool           `json:"no_selfval,omitempty"`
+	SelfvalN     int            `json:"selfval_n,omitempty"`
+	ThoroughOnly bool           `json:"thorough_only,omitempty"`
 }
 
 type propSpec struct {
@@ -217,6 +217,7 @@ type harnessReport struct {
 	WallS       float64        `json:"wall_s"`
 	Exhaustive  bool           `json:"exhaustive"`
 	Incomplete  []string       `json:"incomplete_reasons,omitempty"`
+	Notes       []string       `json:"notes,omitempty"`
 	Labels      map[string]int `json:"assert_labels_reached"`
 	Candidates  int            `json:"candidates"`
 }
@@ -349,7 +350,12 @@ func cmdCheck(args []string) int {
 			rep.Incomplete = append(rep.Incomplete, fmt.Sprintf("%s (x%d)", k, ex.Unsupp[k]))
 		}
 		if st.Inconclusive > 0 {
-			rep.Incomplete = append(rep.Incomplete, fmt.Sprintf("%d solver queries answered unknown within the time limit (feasibility: both branches were kept; obligations: counted as not discharged)", st.Inconclusive))
+			rep.Incomplete = append(rep.Incomplete, fmt.Sprintf("%d obligations answered unknown by the solver within the time limit (counted as not discharged)", st.Inconclusive))
+		}
+		if st.FeasUnknown > 0 {
+			// sound over-approximation: both branches were explored and every
+			// obligation on them was decided under its own path condition
+			rep.Notes = append(rep.Notes, fmt.Sprintf("%d feasibility queries answered unknown: both branches explored", st.FeasUnknown))
 		}
 		if ex.StoppedEarly {
 			rep.Exhaustive = false
